@@ -148,21 +148,20 @@ Proof.
   split; [acc_same|].
   destruct (owner_word _ _ _ t m HInv) as (Hw & Hb); [rewrite Hv; exact H1|]. rewrite Hv, H2 in Hw, Hb. rewrite Hw.
   rewrite nest_mkw by lia. destruct (Z.eqb_spec (Z.of_nat d) 0) as [E|E].
-  - assert (d = O) by lia. subst d.
+  - assert (Hd0 : d = O) by lia. rewrite Hd0 in *. clear Hd0.
     cbv beta iota; apply safe_act_keep. intros g1 a1 tr1 HInv1 Hv1. cbn [a_ctl_ld fst snd vz].
     split; [acc_same|].
     destruct HInv1 as (_ & I2 & _). destruct (GC _ _ I2) as (b & Hb1 & _). rewrite Hb1.
     cbv beta iota; apply safe_act_upd. intros g2 a2 tr2 HInv2 Hv2. cbn [a_acc_st fst snd].
     exists (set_dp l 1%nat b). split; [|cbn; apply HQ].
-    tg; rewrite <- Hv2. change 1 with (Z.of_nat 1). apply step_acc_st; try (rewrite Hv2); auto.
-    + unfold two31; cbn; lia.
-    + lia.
-    + left. rewrite <- Hv2. eapply cs_none; eauto. rewrite Hv2; exact H3.
+    tg; rewrite <- Hv2. change 1 with (Z.of_nat 1).
+    apply step_acc_st; [exact HInv2|rewrite Hv2; exact H1|unfold two31; cbn; lia|rewrite Hv2; lia|].
+    left. eapply cs_none; [exact HInv2|rewrite Hv2; exact H3].
   - cbv beta iota; apply safe_act_upd. intros g1 a1 tr1 HInv1 Hv1. cbn [a_acc_st fst snd].
     rewrite u32_mkw_succ by lia.
     exists (set_dp l (S d) (l_ph l)). split; [|cbn; apply HQ].
     tg; rewrite <- Hv1. replace (Z.of_nat d + 1) with (Z.of_nat (S d)) by lia. rewrite <- Hv1 at 2.
-    apply step_acc_st; try (rewrite Hv1); auto; lia.
+    apply step_acc_st; [exact HInv1|rewrite Hv1; exact H1|lia|rewrite Hv1; lia|right; reflexivity].
 Qed.
 
 Lemma safe_access_unlock t m d l (Q : Z -> L -> Prop) :
@@ -177,7 +176,8 @@ Proof.
   cbv beta iota; apply safe_act_upd. intros g1 a1 tr1 HInv1 Hv1. cbn [a_acc_st fst snd].
   rewrite u32_mkw_pred by lia. replace (Z.of_nat (S d) - 1) with (Z.of_nat d) by lia.
   exists (set_dp l d (l_ph l)). split; [|cbn; apply HQ].
-  tg; rewrite <- Hv1. rewrite <- Hv1 at 2. apply step_acc_st; try (rewrite Hv1); auto; lia.
+  tg; rewrite <- Hv1. rewrite <- Hv1 at 2.
+  apply step_acc_st; [exact HInv1|rewrite Hv1; exact H1|lia|rewrite Hv1; lia|right; reflexivity].
 Qed.
 
 Lemma neutral_cli name args :
